@@ -109,7 +109,8 @@ func c03Run(c *fw.Ctx) {
 	future := harness.At(time.Hour)
 	sess := &sessions.SessionState{ProviderSlug: slugA, ProviderType: "sso", AccessToken: "session-access-token", RefreshToken: "refresh-token",
 		LifetimeDeadline: future, RefreshDeadline: future, ValidDeadline: future, Email: "carol@other.test", User: "carol", Groups: []string{"eng", "ops"}, AuthorizedUpstream: hostA}
-	conns := []string{"", "X-Forwarded-Email, X-Forwarded-User", "x-forwarded-groups, X-Forwarded-Access-Token"}
+	// the last one is a protocol-upgrade handshake (websocket): the request still passes through the same handling
+	conns := []string{"", "X-Forwarded-Email, X-Forwarded-User", "x-forwarded-groups, X-Forwarded-Access-Token", "Upgrade"}
 
 	drive(c, "product", -1, func(x *explore.Exec, owned bool) {
 		inj := injects[x.Choose("inject", len(injects))]
@@ -176,7 +177,9 @@ func c03Run(c *fw.Ctx) {
 			desc = append(desc, h+"="+variants[chosen[i]].Name)
 		}
 		lines = append(lines, layout.Lines(harness.CookieName+"="+sealed)...)
-		if conn != "" {
+		if conn == "Upgrade" {
+			lines = append(lines, "Upgrade: websocket", "Sec-WebSocket-Version: 13", "Sec-WebSocket-Key: dGhlIHNhbXBsZSBub25jZQ==", "Connection: Upgrade")
+		} else if conn != "" {
 			lines = append(lines, "Connection: close, "+conn)
 		} else {
 			lines = append(lines, "Connection: close")
